@@ -3,12 +3,18 @@
 Directed product: element type x length form x reader mode, plus multi-dimensional arrays and expression lengths over
 earlier fields and constants.  Oracles: the independent reference parser (element boundaries, terminator, max(0, expr),
 C nesting order), the real dumps (terminator re-appended, size mismatch refused), the Lean model.
+
+Definition sets (harness/s3_sets.py): several structures are loaded into ONE cstruct instance (one load call or one per
+structure, optionally with a type re-registered in between) such that their array element types are different types with
+the same name - locally tagged `struct entry {...} a[..]` with different bodies, a re-registered `entry`, the built-in
+int48/uint48 pair - under every length form (expression, null-terminated, EOF, fixed, 2-dimensional); every structure of
+the set is then held to the same laws as above (reference parser, dumps, size-mismatch refusal, model), in any order of use.
 """
 from __future__ import annotations
 
 import itertools
 
-from .. import defs, impl, refimpl
+from .. import defs, impl, refimpl, s3_sets
 from ..common import Result, mkrng
 from ..structprops import Engine, load, real_parse, rand_bytes
 
@@ -48,12 +54,120 @@ def make_trees(rnd, tier):
     return out
 
 
+def make_input(rnd, form, tree=None):
+    n0 = rnd.choice([0, 1, 2, 3, 4, 5, 7, 255, 128])
+    body = rand_bytes(rnd, rnd.choice([6, 13, 30, 61]))
+    if form == "null" and rnd.random() < 0.7:
+        cut = rnd.randrange(0, len(body))
+        body = bytes(b or 1 for b in body[:cut]) + bytes(18) + body[cut:]
+    return bytes([n0]) + body
+
+
+def check_case(eng, res, L, form, en, data, cfg, sigs):
+    """all array-length laws on one (structure `n; a[..]; tail`, input): the parse agrees with the reference parser (number of
+    elements, element boundaries, consumed bytes), dumps parses back (terminator re-appended), a fixed-size array with another
+    number of elements is refused, the model agrees"""
+    T, tree, compiled = L.T, L.tree, L.compiled
+    want, obj = real_parse(T, data)
+    try:
+        rv, rend, _ = refimpl.parse(tree, data, 0, cfg)
+        ref = ("ok", rv, rend)
+    except refimpl.Short:
+        ref = ("err", "EOFError")
+    except refimpl.Bad:
+        ref = ("err", "Bad")
+    nelem = 0
+    if want[0] == "ok":
+        a = want[1][2]
+        nelem = (len(a) - 1) if a[0] in ("list", "wstr") else len(a[1])
+    res.count((L.text, getattr(L, "name", "T"), L.endian, L.align, compiled, data), nelem >= 1)
+    res.feat(f"{form}:{en}")
+    cd = eng.case_data(L, data=data)
+    if hasattr(L, "name"):
+        cd["structure"] = L.name
+        cd["repro"] = "from dissect.cstruct import cstruct\n" + L.text + f"\nT = cs.{L.name}"
+    if want[0] == "ok":
+        if impl.contains_nan(want[1]):
+            return
+        if ref[0] != "ok" or not impl.same_val(want[1], ref[1], ignore_union_buf=True) or want[2] != ref[2]:
+            eng.report(f"parsed {str(want[1])[:220]} consuming {want[2]}; the array semantics give {str(ref)[:220]}", cd, sigs)
+            return
+        d = impl.dump(T, obj)
+        if d[0] != "ok":
+            eng.report(f"a parsed array cannot be dumped: {d[1]}", cd, sigs)
+        else:
+            dumped = d[1]
+            if form == "eof" and L.align and T.fields["a"].offset is not None:
+                # an aligned structure that ends in x[EOF]: dumps appends the structure's tail padding after the array, which a
+                # parse reads as further elements by the definition of x[EOF] (recorded as finding F30 under C01/C02, where the
+                # round trip is the property). What C07 states is checked on the dump up to the end of the array.
+                dumped = dumped[: T.fields["a"].offset + obj._sizes.get("a", 0)]
+                res.feat("eof-aligned: parse-back on the dump without the tail padding")
+            back, _ = real_parse(T, dumped + (b"" if form == "eof" else b"\x5a"))
+            if back[0] != "ok" or not impl.same_val(want[1], back[1]) or back[2] != len(d[1]):
+                eng.report(f"dumps does not parse back to the same array (terminator / element boundaries): {str(back)[:200]}", cd, sigs)
+            eng.model_write(L, want[1], d, "array dumps", sigs)
+        # a fixed-size array of non-character elements with another number of elements is refused
+        if form in ("fixed", "multidim") and en not in ("char", "wchar", "uleb128", "ileb128", "dynstruct") and isinstance(obj.a, list) and T.fields["a"].type.size is not None:
+            for delta in (+1, -1):
+                o2 = T(data)
+                arr = list(o2.a)
+                if delta < 0 and not arr:
+                    continue
+                new = arr + [arr[0] if arr else T.fields["a"].type.type.__default__()] if delta > 0 else arr[:-1]
+                try:
+                    o2.a = new
+                    r = impl.dump(T, o2)
+                except Exception as e:  # noqa: BLE001
+                    r = ("err", impl.err_class(e))
+                res.feat("size-mismatch-probe")
+                if r[0] == "ok":
+                    eng.report(f"dumping a fixed-size array with {len(new)} instead of {len(arr)} elements was accepted", cd, sigs)
+    elif ref[0] == "ok":
+        eng.report(f"parse raises {want[1]} where the array semantics give {str(ref[1])[:200]}", cd, sigs + (["F32"] if form == "eof" else []))
+    elif form == "eof" and want[1] != "EOFError" and ref[1] == "EOFError":
+        eng.report(f"a partial trailing element of x[EOF] raises {want[1]}, not EOFError", cd, sigs + ["F32"])
+    if not (form == "eof" and want[0] == "err"):
+        eng.model_read(L, data, 0, want, "array read", sigs) if not compiled else None
+
+
+def run_sets(env, eng, res, rnd):
+    """definition sets: several structures in one cstruct instance whose (distinct) array element types share a name"""
+    tier = env["tier"]
+    for _ in range(70 if tier == "quick" else 1500):
+        plan = s3_sets.make_plan(rnd)
+        for endian, align, compiled in itertools.product("<>", (False, True), (False, True)):
+            if rnd.random() < (0.6 if tier == "quick" else 0.3):
+                continue
+            try:
+                LS = s3_sets.LoadedSet(plan, endian=endian, align=align, compiled=compiled)
+            except Exception as e:  # noqa: BLE001
+                res.feat("set-rejected:" + plan["kind"])
+                eng.report(f"definition set rejected: {type(e).__name__}: {e}", {"steps": plan["steps"], "endian": endian, "align": align, "compiled": compiled}, [])
+                continue
+            res.feat("set:" + plan["kind"])
+            res.feat(f"set-members:{len(LS.members)}")
+            cfg = refimpl.Cfg(endian, align, "uint64", impl.CONSTS)
+            order = list(LS.members)
+            if rnd.random() < 0.5:
+                rnd.shuffle(order)  # the order of use is independent of the order of definition
+            for M in order:
+                sigs = eng.sigs(M)
+                for _i in range(3 if tier == "quick" else 6):
+                    check_case(eng, res, M, "fixed" if M.form == "fixed" else M.form, "set:" + M.en, make_input(rnd, M.form), cfg, sigs)
+        if len(eng.lines) > 4000:
+            eng.flush()
+    eng.flush()
+
+
 def run(env) -> Result:
     res = Result()
     res.rule = ("directed product: 21 element types (packed ints, odd-width ints, char, wchar, floats, enum/flag, LEB128, pointer, void, fixed "
                 "struct, dynamic struct, int row, char row) x {fixed 0..3, expression over an earlier field and constants, null-terminated, EOF, "
                 "2- and 3-dimensional} x {<,>} x {packed, aligned} x {interpreted, compiled}; inputs biased so that terminators and small counts "
                 "occur. Compared: real parse vs reference parser vs Lean model; dumps re-appends terminators; wrong-size fixed arrays are refused. "
+                "Definition sets: 2-4 structures in one cstruct instance whose array element types are distinct but share their name (same-tag "
+                "local structs/unions with different bodies, a re-registered type, int48/uint48) under every length form, same laws per structure. "
                 "distinct = (definition, config, input); non-trivial = the array has >= 1 element")
     eng = Engine(env, res, "C07")
     rnd = mkrng(env["seed"], "c07")
@@ -68,70 +182,14 @@ def run(env) -> Result:
                 if not (form == "null" and en not in NULLTERM_OK):
                     eng.report(f"array definition rejected: {type(err).__name__}: {err}", {"definition": defs.render_struct('T', tree)}, [])
                 continue
-            T = L.T
             cfg = refimpl.Cfg(endian, align, "uint64", impl.CONSTS)
             sigs = eng.sigs(L)
             for _ in range(4 if tier == "quick" else 16):
-                n0 = rnd.choice([0, 1, 2, 3, 4, 5, 7, 255, 128])
-                body = rand_bytes(rnd, rnd.choice([6, 13, 30, 61]))
-                if form == "null" and rnd.random() < 0.7:
-                    cut = rnd.randrange(0, len(body))
-                    body = bytes(b or 1 for b in body[:cut]) + bytes(18) + body[cut:]
-                data = bytes([n0]) + body
-                want, obj = real_parse(T, data)
-                try:
-                    rv, rend, _ = refimpl.parse(tree, data, 0, cfg)
-                    ref = ("ok", rv, rend)
-                except refimpl.Short:
-                    ref = ("err", "EOFError")
-                except refimpl.Bad:
-                    ref = ("err", "Bad")
-                nelem = 0
-                if want[0] == "ok":
-                    a = want[1][2]
-                    nelem = (len(a) - 1) if a[0] in ("list", "wstr") else len(a[1])
-                res.count((L.text, endian, align, compiled, data), nelem >= 1)
-                res.feat(f"{form}:{en}")
-                cd = eng.case_data(L, data=data)
-                if want[0] == "ok":
-                    if impl.contains_nan(want[1]):
-                        continue
-                    if ref[0] != "ok" or not impl.same_val(want[1], ref[1], ignore_union_buf=True) or want[2] != ref[2]:
-                        eng.report(f"parsed {str(want[1])[:220]} consuming {want[2]}; the array semantics give {str(ref)[:220]}", cd, sigs)
-                        continue
-                    d = impl.dump(T, obj)
-                    if d[0] != "ok":
-                        eng.report(f"a parsed array cannot be dumped: {d[1]}", cd, sigs)
-                    else:
-                        back, _ = real_parse(T, d[1] + (b"" if form == "eof" else b"\x5a"))
-                        if back[0] != "ok" or not impl.same_val(want[1], back[1]) or back[2] != len(d[1]):
-                            eng.report(f"dumps does not parse back to the same array (terminator / element boundaries): {str(back)[:200]}", cd, sigs)
-                        eng.model_write(L, want[1], d, "array dumps", sigs)
-                    # a fixed-size array of non-character elements with another number of elements is refused
-                    if form in ("fixed", "multidim") and en not in ("char", "wchar", "uleb128", "ileb128", "dynstruct") and isinstance(obj.a, list) and T.fields["a"].type.size is not None:
-                        for delta in (+1, -1):
-                            o2 = T(data)
-                            arr = list(o2.a)
-                            if delta < 0 and not arr:
-                                continue
-                            new = arr + [arr[0] if arr else T.fields["a"].type.type.__default__()] if delta > 0 else arr[:-1]
-                            try:
-                                o2.a = new
-                                r = impl.dump(T, o2)
-                            except Exception as e:  # noqa: BLE001
-                                r = ("err", impl.err_class(e))
-                            res.feat("size-mismatch-probe")
-                            if r[0] == "ok":
-                                eng.report(f"dumping a fixed-size array with {len(new)} instead of {len(arr)} elements was accepted", cd, sigs)
-                elif ref[0] == "ok":
-                    eng.report(f"parse raises {want[1]} where the array semantics give {str(ref[1])[:200]}", cd, sigs + (["F32"] if form == "eof" else []))
-                elif form == "eof" and want[1] != "EOFError" and ref[1] == "EOFError":
-                    eng.report(f"a partial trailing element of x[EOF] raises {want[1]}, not EOFError", cd, sigs + ["F32"])
-                if not (form == "eof" and want[0] == "err"):
-                    eng.model_read(L, data, 0, want, "array read", sigs) if not compiled else None
+                check_case(eng, res, L, form, en, make_input(rnd, form), cfg, sigs)
         if len(eng.lines) > 4000:
             eng.flush()
     eng.flush()
+    run_sets(env, eng, res, mkrng(env["seed"], "c07-sets"))
     return res
 
 
